@@ -60,6 +60,8 @@ def rhs_kind(st, sim):
         if isinstance(e, ast.Call) and getattr(e.func, "attr", getattr(e.func, "id", "")) in ("ascontiguousarray", "asanyarray", "array") and e.args:
             return unwrap(e.args[0], depth + 1)
         if isinstance(e, ast.Subscript):
+            if ast.unparse(e.slice).strip("()") == ":, ::-1" and ast.unparse(e.value) == f"self.{field}":
+                return ast.Call(func=ast.Name(id="fliplr", ctx=ast.Load()), args=[e.value], keywords=[])  # column reversal written as a slice
             return unwrap(e.value, depth + 1)
         return e
 
